@@ -588,6 +588,7 @@ func (l *log) Backup(dir string) error {
 		if err := reader.Backup(dir); err != nil {
 			return err
 		}
+		vhook.At("backup.afterSegment")
 	}
 
 	return nil
